@@ -683,10 +683,14 @@ def app_limit_history(rng):
     for i in rng.sample(order, 3):
         g.ops.append("proc reply a%d preconnect 0 200 host=coll-a%d.example" % (i, i))
         g.ops.append("proc reply a%d connect 0 200 run=r%dqqq rp=- ee=- ae=- ce=- se=- le=- srp=- sl=- rules=- hdr=-" % (i, i))
+    # ... and one is disconnected for good (410): that verdict has to survive whatever happens to the table afterwards
+    gone = rng.choice([i for i in order])
+    g.ops.append("proc reply a%d preconnect 0 410" % gone)
     for _ in range(2):
         for i in range(n + 1, n + extra + 1):
             g.ops.append("proc app a%d run=%s" % (i, rng.choice(["-", "-", "rX"])))
         g.ops.append("proc advance 31")
+        g.ops.append("proc app a%d run=-" % gone)
     g.ops.append("proc app a%d run=-" % rng.choice(order))
     g.ops.append("proc cleanexit default=200")
     return g.ops
